@@ -346,3 +346,35 @@ Proof.
   rewrite H3. destruct (p_result (getp c k)) as [r|]; split; intros H; eauto; try discriminate.
   destruct H as [r H]. discriminate.
 Qed.
+
+(* ---------------------------------------------------------------- where calls go (first half) *)
+
+(* newest event first: a call is handed to the PipelineCaller of promise k (the end of the traversal of the
+   chain at that moment) only while no Fulfill / Reject / Join has taken k out of the unresolved state *)
+Fixpoint wf_jcaller (l : list jevent) : Prop :=
+  match l with
+  | [] => True
+  | e :: r => wf_jcaller r /\
+              match e with
+              | JEDeliver _ k DCaller => jcnt (jis_begin k) r = 0%nat
+              | _ => True
+              end
+  end.
+
+Lemma wf_jcaller_step : forall v c t c', JR c -> wf_jcaller (jevents c) -> jstep v c t = Some c' ->
+  wf_jcaller (jevents c').
+Proof.
+  intros v c t c' HR HW Hs.
+  jleaves v Hs Hth.
+  all: goal_matches; simpl; rewrite ?close_sigs_events; simpl.
+  all: norm_negb.
+  all: repeat split; auto.
+  all: try (match goal with H : p_caller (getp ?cc ?k) = true |- _ => exact (proj1 (proj2 (R_begin cc HR k) H)) end).
+  all: try (destruct (res_dest _ _) eqn:Ed; auto; exfalso; eapply res_dest_not_caller; eauto).
+Qed.
+
+Theorem join_caller_before_resolution : forall v np ops c, jreach v np ops c -> wf_jcaller (jevents c).
+Proof.
+  intros v np ops c H. induction H as [|c t c' Hr IH Hs]; [exact I|].
+  exact (wf_jcaller_step v c t c' (JR_reach v np ops c Hr) IH Hs).
+Qed.
